@@ -2,6 +2,7 @@ package main
 
 import (
 	"go/types"
+	"math"
 	"sort"
 	"strings"
 )
@@ -10,6 +11,35 @@ import (
 func (i *interpreter) registerExtraModels() {
 	i.registerPromModels()
 	i.registerSortModels()
+	// bit casts of concrete floats (the real functions go through unsafe.Pointer)
+	i.addModel("math.Float64bits", "bit pattern of a concrete float64", func(fr *frame, a []value) value {
+		f, ok := a[0].(float64)
+		if !ok {
+			panic(unsupported("math.Float64bits of a symbolic value"))
+		}
+		return math.Float64bits(f)
+	})
+	i.addModel("math.Float64frombits", "float64 from a concrete bit pattern", func(fr *frame, a []value) value {
+		b, ok := a[0].(uint64)
+		if !ok {
+			panic(unsupported("math.Float64frombits of a symbolic value"))
+		}
+		return math.Float64frombits(b)
+	})
+	i.addModel("math.Float32bits", "bit pattern of a concrete float32", func(fr *frame, a []value) value {
+		f, ok := a[0].(float32)
+		if !ok {
+			panic(unsupported("math.Float32bits of a symbolic value"))
+		}
+		return math.Float32bits(f)
+	})
+	i.addModel("math.Float32frombits", "float32 from a concrete bit pattern", func(fr *frame, a []value) value {
+		b, ok := a[0].(uint32)
+		if !ok {
+			panic(unsupported("math.Float32frombits of a symbolic value"))
+		}
+		return math.Float32frombits(b)
+	})
 	i.addModel("context.WithValue", "real valueCtx node; key comparability decided by go/types (the real code asks reflectlite)", func(fr *frame, a []value) value {
 		parent := a[0].(iface)
 		key := a[1].(iface)
